@@ -280,6 +280,34 @@ func c13ServiceArea(c *core.Ctx, k *core.Case) {
 	if k.I[2] == 0 {
 		rt = models.RestrictionType_NOT_ALLOWED_AREAS
 	}
+	// In every second case the areas' TAC lists are windows into ONE pool of strings, laid out
+	// in another order than the areas and with gaps, each window keeping the rest of the pool as
+	// spare capacity (a caller that cuts its areas out of one configuration array). The pool
+	// is the caller's: it must be unchanged afterwards.
+	var pool, poolSnap []string
+	if k.I[0]&1 == 1 && len(areas) > 1 {
+		order := r.Perm(len(areas))
+		for _, ai := range order {
+			pool = append(pool, "gap-"+fmt.Sprint(ai))
+			start := len(pool)
+			pool = append(pool, areas[ai].Tacs...)
+			areas[ai].Tacs = nil
+			_ = start
+		}
+		pool = append(pool, "end", "end")
+		// second pass: now that the pool no longer moves, cut the windows
+		off := 0
+		for _, ai := range order {
+			off++ // the gap entry
+			n := 0
+			for off+n < len(pool) && len(pool[off+n]) == 6 {
+				n++
+			}
+			areas[ai].Tacs = pool[off : off+n] // capacity runs to the end of the pool
+			off += n
+		}
+		poolSnap = append([]string(nil), pool...)
+	}
 	c.Eval(1)
 	if _, owned := ownedTwice(func() []byte {
 		return nasConvert.PartialServiceAreaListToNas(models.PlmnId{Mcc: mcc, Mnc: mnc}, models.ServiceAreaRestriction{RestrictionType: rt, Areas: areas})
@@ -295,6 +323,12 @@ func c13ServiceArea(c *core.Ctx, k *core.Case) {
 			if got.TACs[i] != want[i] {
 				ok = false
 			}
+		}
+	}
+	for i := range poolSnap {
+		if pool[i] != poolSnap[i] {
+			c.Fail(k, "input-mutated:PartialServiceAreaListToNas", fmt.Sprintf("the caller's pool of TAC strings changed at index %d: %q -> %q (areas are windows into one pool)", i, poolSnap[i], pool[i]))
+			break
 		}
 	}
 	if !ok {
